@@ -633,7 +633,13 @@ class Daemon(object):
             msg = "Error serializing exception: %s. Original exception: %s: %s" % (str(xv), type(exc_value), str(exc_value))
             exc_value = errors.PyroError(msg)
             exc_value._pyroTraceback = tbinfo
-            data = serializer.dumps(exc_value)
+            try:
+                data = serializer.dumps(exc_value)
+            except UnicodeError:
+                # the text itself can't be encoded by this serializer (lone surrogates, from undecodable file names for instance)
+                exc_value = errors.PyroError(msg.encode("ascii", "backslashreplace").decode("ascii"))
+                exc_value._pyroTraceback = [line.encode("ascii", "backslashreplace").decode("ascii") for line in tbinfo or []]
+                data = serializer.dumps(exc_value)
         flags |= protocol.FLAGS_EXCEPTION
         annotations = dict(annotations or {})
         annotations.update(self.annotations())
